@@ -288,8 +288,9 @@ impl<'a> W<'a> {
             self.send(Msg::Triple { mode: 0, key: key.to_vec(), m, sig, ctx: None, chosen: None, hon: false });
             return;
         }
-        let prehashed = !matches!(mode % 6, 0 | 1 | 4);
-        let vmodes: &[u8] = if prehashed { &[3, 4, 6, 8, 10] } else { &[0, 1, 2, 5, 7] };
+        let alt = mode >= 12;
+        let prehashed = alt || !matches!(mode % 6, 0 | 1 | 4);
+        let vmodes: &[u8] = if alt { &[12, 13, 14, 15] } else if prehashed { &[3, 4, 6, 8, 10] } else { &[0, 1, 2, 5, 7] };
         let vctx = if prehashed { Some(ctx.clone().unwrap_or_default()) } else { None };
         self.seen_triples.push((key.to_vec(), m.clone(), sig.clone()));
         // undamaged
@@ -299,9 +300,10 @@ impl<'a> W<'a> {
         // cross-protocol: a pure signature presented as prehashed and vice versa
         if self.rng.chance(1, 8) {
             bump(&mut self.c, "fault:cross_protocol");
-            let other: &[u8] = if prehashed { &[0, 2, 5] } else { &[3, 4, 6] };
+            // (a signature over one message digest presented to a verifier using the other is cross-protocol too)
+            let other: &[u8] = if alt { &[3, 4, 0] } else if prehashed { &[0, 2, 5, 12, 13] } else { &[3, 4, 6, 12] };
             let om = other[self.rng.below(other.len() as u64) as usize];
-            self.send(Msg::Triple { mode: om, key: key.to_vec(), m: m.clone(), sig: sig.clone(), ctx: if prehashed { None } else { Some(vec![]) }, chosen: None, hon: false });
+            self.send(Msg::Triple { mode: om, key: key.to_vec(), m: m.clone(), sig: sig.clone(), ctx: if prehashed { if om >= 3 && om != 5 { vctx.clone() } else { None } } else { Some(vec![]) }, chosen: None, hon: false });
         }
         // through the adversary
         if self.fault_pct > 0 && self.rng.chance(1, 2) {
@@ -456,8 +458,11 @@ impl<'a> W<'a> {
         let (a_cl, prefix) = eddsa::expand(&seed);
         let a_sc = refmodel::Sc::from_bytes_mod_order(&a_cl);
         let a_pt = b.mul_le(&a_cl);
+        let alt = prehashed && self.rng.chance(1, 3);
         let hash_in = |m: &Vec<u8>| -> Vec<u8> {
-            if prehashed {
+            if alt {
+                eddsa::sha512(&[m, &[crate::env::ALT_SUFFIX]]).to_vec()
+            } else if prehashed {
                 eddsa::sha512(&[m]).to_vec()
             } else {
                 m.clone()
@@ -648,7 +653,7 @@ impl<'a> W<'a> {
             }
         };
         // deliver to both a lenient and a strict verifier (and the hazmat / wrapper paths)
-        let modes: &[u8] = if prehashed { &[3, 4, 6, 8] } else { &[0, 2, 5, 1] };
+        let modes: &[u8] = if alt { &[12, 13, 14, 15] } else if prehashed { &[3, 4, 6, 8] } else { &[0, 2, 5, 1] };
         let n = 2 + self.rng.below(2) as usize;
         for i in 0..n {
             let mode = modes[i % modes.len()];
@@ -848,7 +853,23 @@ impl<'a> W<'a> {
                 2 => n / 2,
                 _ => self.rng.below(n as u64) as usize,
             };
-            match self.rng.below(13) {
+            match self.rng.below(14) {
+                13 => {
+                    // a second submission of another entry's (R, key, message) with a different canonical S: entries
+                    // that hash alike are not the same signature
+                    bump(&mut self.c, "fault:batch_resubmission_with_other_S");
+                    let other = (pos + 1 + self.rng.below(n.max(2) as u64 - 1) as usize) % n;
+                    if other != pos {
+                        let src = entries[other].clone();
+                        entries[pos] = src;
+                        let s = if self.rng.coin() {
+                            refmodel::Sc::from_bytes_mod_order(&self.rng.arr32())
+                        } else {
+                            refmodel::Sc::from_bytes_mod_order(&arr32(&entries[pos].2[32..])).add(&refmodel::Sc::ONE)
+                        };
+                        entries[pos].2[32..].copy_from_slice(&s.to_bytes());
+                    }
+                }
                 11 => {
                     // two cooperating entries: only the S halves swapped, so the S terms still sum to the honest total
                     bump(&mut self.c, "fault:batch_S_halves_swapped");
@@ -920,8 +941,13 @@ impl<'a> W<'a> {
                 7 => {
                     bump(&mut self.c, "fault:S_plus_jl");
                     let s = refmodel::U256::from_le_bytes(&arr32(&entries[pos].2[32..]));
-                    let (t, _) = s.add_carry(&sc::l());
-                    entries[pos].2[32..].copy_from_slice(&t.to_le_bytes());
+                    // S + j l: j = 1 stays below 2^253 (what legacy builds accept), larger j set the top three bits
+                    let j = [1u64, 1, 2, 7, 8, 15][self.rng.below(6) as usize];
+                    let (jl, hi) = sc::l().mul_small(j);
+                    let (t, carry) = s.add_carry(&jl);
+                    if hi == 0 && !carry {
+                        entries[pos].2[32..].copy_from_slice(&t.to_le_bytes());
+                    }
                 }
                 8 => {
                     bump(&mut self.c, "fault:batch_undecodable_R");
@@ -1234,7 +1260,12 @@ pub fn generate(seed: u64, run: u64, focus: &str, thorough: bool) -> Plan {
                 let s = w.rng.below(nsigners as u64) as u8;
                 let ml = w.msg_len();
                 let m = w.rng.bytes(ml);
-                let mode = w.rng.below(7) as u8;
+                let mut mode = w.rng.below(7) as u8;
+                if w.rng.chance(1, 8) {
+                    // Ed25519ph over another 64-byte message digest
+                    bump(&mut w.c, "probe:alternative_prehash_digest");
+                    mode = 12 + w.rng.below(3) as u8;
+                }
                 let ctx = if mode == 6 {
                     // stub digest for both hashes of raw_sign: chosen nonce hash and challenge hash
                     bump(&mut w.c, "fault:chosen_signing_hashes");
@@ -1245,7 +1276,7 @@ pub fn generate(seed: u64, run: u64, focus: &str, thorough: bool) -> Plan {
                         }
                     }
                     Some(v)
-                } else if matches!(mode, 2 | 3 | 5) {
+                } else if matches!(mode, 2 | 3 | 5 | 12 | 13 | 14) {
                     w.ctx_choice()
                 } else {
                     None
